@@ -167,7 +167,8 @@ def execute(sc):
         c = 2.0 ** sc["twin_k"]
         b2 = configs.build(cfg, lam=[c * x for x in cfg["lam"]], with_ref=False)
         r2 = scen.run_natural(b2, save_at, atol=sc["atol"], rtol=sc["rtol"], dt0=sc["dt0"], eps=sc["eps"],
-                              error_spec=sc["error"], control_spec=sc["control"], fault=dict(sc["fault"]), rec=Recorder())
+                              error_spec=sc["error"], control_spec=sc["control"], fault=dict(sc["fault"]), rec=Recorder(),
+                              stop_after_calls=60)
         e1 = [x[3] for x in r.err.log]
         e2 = [x[3] for x in r2.err.log]
         def reldiff(a, b_):
